@@ -127,6 +127,7 @@ func runLife(c *Ctx, sc lifeSc, seedLabel ...interface{}) (out lifeOutcome) {
 
 	// ---- handlers ----
 	var connIdx int64 // number of successful connects so far (harness view)
+	var sawError int32 // a server sent an ERROR line before hanging up
 	sample := func(kind string) {
 		v := "false"
 		if conn.Connected() {
@@ -367,6 +368,12 @@ func runLife(c *Ctx, sc lifeSc, seedLabel ...interface{}) (out lifeOutcome) {
 				add("C07", "stale-input-on-new-connection", fmt.Sprintf("cycle %d: %d lines received on the previous connection were dispatched after the reconnect", cycle, n-numAtDisc))
 			}
 		}
+		if healthy && cycle > 0 && atomic.LoadInt32(&sawError) == 1 && s.Cfg.Timeout > 0 && s.Cfg.Timeout <= 50*time.Millisecond {
+			// the previous connection was ended with an ERROR line: the new one is unaffected by whatever that
+			// set in motion - also once the (here: short) Config.Timeout has passed since
+			time.Sleep(s.Cfg.Timeout + 25*time.Millisecond)
+			healthy = s.WireMarker(mc)
+		}
 		if !healthy || !conn.Connected() || mc.Closed() {
 			ds := rig.ProveDead(WaitShort)
 			switch {
@@ -582,7 +589,17 @@ func runLife(c *Ctx, sc lifeSc, seedLabel ...interface{}) (out lifeOutcome) {
 				}
 			case "eof":
 				fired.Add(1)
-				go func() { fired.Done(); <-barrier; mc.SendEOF() }()
+				sayWhy := r.Intn(2) == 0
+				go func() {
+					fired.Done()
+					<-barrier
+					if sayWhy {
+						// a server says why before it hangs up
+						mc.SendLine("ERROR :Closing Link: me[host] (Ping timeout)")
+						atomic.StoreInt32(&sawError, 1)
+					}
+					mc.SendEOF()
+				}()
 			case "readerr":
 				fired.Add(1)
 				go func() { fired.Done(); <-barrier; mc.SendErr(nil) }()
